@@ -55,6 +55,15 @@ func init() {
 			{Name: "disconnect cleanup uses the local id", ExpectRule: "C17.R3", ExpectKey: "agent.Agent.tcpRelay", Edits: []Edit{
 				{File: "internal/agent/agent.go", Old: "if cleaned := a.tcpRelay.DeleteByPeer(peerID); cleaned > 0 {", New: "if cleaned := a.tcpRelay.DeleteByPeer(a.id); cleaned > 0 {"},
 			}},
+			{Name: "disconnect cleanup skipped for clean disconnects (early return in front of it)", ExpectRule: "C17.R3", ExpectKey: "agent.Agent.", Edits: []Edit{
+				{File: "internal/agent/agent.go", Old: "\t// Clean up relay streams involving this peer\n\ta.cleanupRelaysForPeer(peerID)\n", New: "\tif err == nil {\n\t\treturn\n\t}\n\ta.cleanupRelaysForPeer(peerID)\n"},
+			}},
+			{Name: "UDP relay cleanup only when the TCP table had entries", ExpectRule: "C17.R3", ExpectKey: "agent.Agent.udpRelay", Edits: []Edit{
+				{File: "internal/agent/agent.go", Old: "\tif cleaned := a.udpRelay.DeleteByPeer(peerID); cleaned > 0 {", New: "\tif a.tcpRelay.LookupDownstream(0) == nil {\n\t\treturn\n\t}\n\tif cleaned := a.udpRelay.DeleteByPeer(peerID); cleaned > 0 {"},
+			}},
+			{Name: "DeleteByPeer matches the upstream side only", ExpectRule: "C17.R3", ExpectKey: "matches every recorded peer", Edits: []Edit{
+				{File: "internal/agent/relay_table.go", Old: "if e.UpstreamPeer == peer || e.DownstreamPeer == peer {", New: "if e.UpstreamPeer == peer {"},
+			}},
 			{Name: "TCP relay entry kept when forwarding the open fails", ExpectRule: "C17.R4", ExpectKey: "handleStreamOpen", Edits: []Edit{
 				{File: "internal/agent/agent.go", Old: "\t\t// Clean up relay entry on failure\n\t\ta.tcpRelay.Delete(relay)\n", New: ""},
 			}},
@@ -72,6 +81,21 @@ func init() {
 			}},
 			{Name: "udp: association kept when the open acknowledgement cannot be sent", ExpectRule: "C17.R4", ExpectKey: "(*udp.Handler).HandleUDPOpen", Edits: []Edit{
 				{File: "internal/udp/handler.go", Old: "\t\th.removeAssociation(streamID)\n\t\treturn fmt.Errorf(\"send UDP_OPEN_ACK: %w\", err)\n", New: "\t\treturn fmt.Errorf(\"send UDP_OPEN_ACK: %w\", err)\n"},
+			}},
+			{Name: "seed class C17-a: one lookup with fallback, direction inferred from whichever peer matches", ExpectRule: "C17.R4", ExpectKey: "removal matches the sender's side", Edits: []Edit{
+				{File: "internal/agent/relay_table.go", Old: "\tif up := r.byUpstream[streamID]; up != nil && up.UpstreamPeer == peer {\n\t\tdelete(r.byUpstream, up.UpstreamID)\n\t\tdelete(r.byDownstream, up.DownstreamID)\n\t\treturn up, true\n\t}\n\tif down := r.byDownstream[streamID]; down != nil && down.DownstreamPeer == peer {\n\t\tdelete(r.byUpstream, down.UpstreamID)\n\t\tdelete(r.byDownstream, down.DownstreamID)\n\t\treturn down, false\n\t}\n\treturn nil, false\n", New: "\te := r.byUpstream[streamID]\n\tif e == nil {\n\t\te = r.byDownstream[streamID]\n\t}\n\tif e == nil {\n\t\treturn nil, false\n\t}\n\tswitch peer {\n\tcase e.UpstreamPeer:\n\t\tfromUpstream = true\n\tcase e.DownstreamPeer:\n\t\tfromUpstream = false\n\tdefault:\n\t\treturn nil, false\n\t}\n\tdelete(r.byUpstream, e.UpstreamID)\n\tdelete(r.byDownstream, e.DownstreamID)\n\treturn e, fromUpstream\n"},
+			}},
+			{Name: "upstream hit of another peer ends the search", ExpectRule: "C17.R4", ExpectKey: "consults every index", Edits: []Edit{
+				{File: "internal/agent/relay_table.go", Old: "\tif up := r.byUpstream[streamID]; up != nil && up.UpstreamPeer == peer {\n\t\tdelete(r.byUpstream, up.UpstreamID)\n\t\tdelete(r.byDownstream, up.DownstreamID)\n\t\treturn up, true\n\t}\n", New: "\tif up := r.byUpstream[streamID]; up != nil {\n\t\tif up.UpstreamPeer != peer {\n\t\t\treturn nil, false\n\t\t}\n\t\tdelete(r.byUpstream, up.UpstreamID)\n\t\tdelete(r.byDownstream, up.DownstreamID)\n\t\treturn up, true\n\t}\n"},
+			}},
+			{Name: "downstream hit validated against the upstream peer", ExpectRule: "C17.R4", ExpectKey: "byDownstream removal matches the sender's side", Edits: []Edit{
+				{File: "internal/agent/relay_table.go", Old: "if down := r.byDownstream[streamID]; down != nil && down.DownstreamPeer == peer {", New: "if down := r.byDownstream[streamID]; down != nil && down.UpstreamPeer == peer {"},
+			}},
+			{Name: "OPEN_ERR pop accepts either recorded peer", ExpectRule: "C17.R4", ExpectKey: "byDownstream removal matches the sender's side", Edits: []Edit{
+				{File: "internal/agent/relay_table.go", Old: "if e == nil || e.DownstreamPeer != peer {", New: "if e == nil || (e.DownstreamPeer != peer && e.UpstreamPeer != peer) {"},
+			}},
+			{Name: "rewrite: PopMatchingPeer looks both indices up first, then validates each side", Edits: []Edit{
+				{File: "internal/agent/relay_table.go", Old: "\tif up := r.byUpstream[streamID]; up != nil && up.UpstreamPeer == peer {\n\t\tdelete(r.byUpstream, up.UpstreamID)\n\t\tdelete(r.byDownstream, up.DownstreamID)\n\t\treturn up, true\n\t}\n\tif down := r.byDownstream[streamID]; down != nil && down.DownstreamPeer == peer {\n\t\tdelete(r.byUpstream, down.UpstreamID)\n\t\tdelete(r.byDownstream, down.DownstreamID)\n\t\treturn down, false\n\t}\n\treturn nil, false\n", New: "\tup, down := r.byUpstream[streamID], r.byDownstream[streamID]\n\tswitch {\n\tcase up != nil && peer == up.UpstreamPeer:\n\t\tentry, fromUpstream = up, true\n\tcase down != nil && peer == down.DownstreamPeer:\n\t\tentry = down\n\tdefault:\n\t\treturn nil, false\n\t}\n\tdelete(r.byDownstream, entry.DownstreamID)\n\tdelete(r.byUpstream, entry.UpstreamID)\n\treturn entry, fromUpstream\n"},
 			}},
 			{Name: "rewrite: disconnect cleanup loops over the relay tables", Edits: []Edit{
 				{File: "internal/agent/agent.go", Old: "\t// Clean up relay streams involving this peer\n\ta.cleanupRelaysForPeer(peerID)\n", New: "\tfor _, tab := range []*relayTable{a.tcpRelay, a.udpRelay, a.icmpRelay} {\n\t\ttab.DeleteByPeer(peerID)\n\t}\n"},
@@ -225,6 +249,7 @@ func runC17(p *kit.Program, r *kit.Report) {
 	c17R3(p, r, cx, rt, agent)
 	c17R4(p, r, rt, agent)
 	c17R4Handlers(p, r)
+	c17R4RelaySide(p, r, cx, rt)
 	r.Note("R5 (dependency): DeleteByPeer walks one index and relies on 'every entry is in both indices'; that invariant additionally needs C16.R3 (no clobbering insertion), reported by C16. Counter drift caused by inserting over an existing key is likewise C16.R3.")
 }
 
@@ -262,6 +287,12 @@ func c17KeyRoot(key ssa.Value, entry types.Type) (root ssa.Value, keyField *type
 		if e, ok := base.(*ssa.Extract); ok {
 			if nx, isNext := e.Tuple.(*ssa.Next); isNext {
 				return nx, f, false
+			}
+		}
+		// a local variable holding the entry (named result, captured local): the variable is the root
+		if ld, ok := base.(*ssa.UnOp); ok && ld.Op == token.MUL {
+			if a, isAlloc := ld.X.(*ssa.Alloc); isAlloc {
+				return a, f, false
 			}
 		}
 		return base, f, false
@@ -638,6 +669,33 @@ func c17DisconnectedPeer(v ssa.Value) bool {
 	return true
 }
 
+// c17Unconditional: the call is executed on every run of its function: no return is reachable
+// from the entry without passing the call's block. A call inside a loop body is accepted (the
+// loop ranges over a fixed list of tables in the idiom this is meant for).
+func c17Unconditional(c ssa.CallInstruction) bool {
+	fn := c.Parent()
+	if len(fn.Blocks) == 0 {
+		return false
+	}
+	cb := c.Block()
+	if cb == fn.Blocks[0] {
+		return true
+	}
+	if kit.CanReach(c, c) {
+		return true // loop body
+	}
+	reach := kit.Reach(fn.Blocks[0], nil, map[*ssa.BasicBlock]bool{cb: true})
+	for _, ret := range kit.Returns(fn) {
+		if ret.Block() == fn.Recover || ret.Block() == cb {
+			continue
+		}
+		if reach[ret.Block()] {
+			return false
+		}
+	}
+	return true
+}
+
 // c17FieldsBehind lists the struct fields a value is loaded from: directly, through phis, or as
 // an element of a local array/slice literal whose elements are such field loads
 // (for _, t := range []*relayTable{a.tcpRelay, a.udpRelay, a.icmpRelay}).
@@ -755,7 +813,25 @@ func c17R3(p *kit.Program, r *kit.Report, cx *c16Ctx, rt, agent *types.Named) {
 	}
 	r.Count("agent_relay_table_fields", len(relayFields))
 	r.Require(len(relayFields) >= 3, "floor: Agent has %d *relayTable fields (expected tcp, udp, icmp)", len(relayFields))
+	// functions that run on every invocation of the callback: reached through calls that no
+	// early return or branch can skip (calls inside a loop body are taken as executed)
+	always := map[*ssa.Function]bool{}
+	work := append([]*ssa.Function{}, roots...)
+	for len(work) > 0 {
+		fn := work[len(work)-1]
+		work = work[:len(work)-1]
+		if fn == nil || always[fn] {
+			continue
+		}
+		always[fn] = true
+		for _, c := range kit.Calls(fn) {
+			if cal := kit.CalleeOf(c); cal.Static != nil && cal.Static.Blocks != nil && c17Unconditional(c) {
+				work = append(work, cal.Static)
+			}
+		}
+	}
 	covered := map[*types.Var]string{}
+	conditional := map[*types.Var]string{}
 	for fn := range reach {
 		for _, c := range kit.Calls(fn) {
 			cal := kit.CalleeOf(c)
@@ -766,15 +842,74 @@ func c17R3(p *kit.Program, r *kit.Report, cx *c16Ctx, rt, agent *types.Named) {
 				continue
 			}
 			for _, f := range c17FieldsBehind(kit.Receiver(c)) {
-				covered[f] = kit.FuncName(fn)
+				if always[fn] && c17Unconditional(c) {
+					covered[f] = kit.FuncName(fn)
+				} else {
+					conditional[f] = p.Pos(c.Pos())
+				}
 			}
 		}
 	}
 	for _, f := range relayFields {
 		where, ok := covered[f]
+		bad := "the by-peer removal of this relay table is never called with the disconnected peer from the OnPeerDisconnect callback: relay entries of a peer that went away stay in both indices forever"
+		if at, cond := conditional[f]; cond && !ok {
+			bad = "the by-peer removal of this relay table (call at " + at + ") is skipped on some paths through the OnPeerDisconnect callback (early return or branch in front of it): for those disconnects the peer's relay entries stay in both indices forever"
+		}
 		r.Decide(ok, "C17.R3", "agent.Agent."+f.Name(), p.Pos(f.Pos()),
-			"by-peer removal called with the disconnected peer in "+where,
-			"the by-peer removal of this relay table is never called with the disconnected peer from the OnPeerDisconnect callback: relay entries of a peer that went away stay in both indices forever")
+			"by-peer removal called with the disconnected peer on every path, in "+where, bad)
+	}
+	// the by-peer removal matches an entry on every peer it records
+	for m := range removers {
+		_, entry := c17RelayIndexes(rt)
+		var peerFields []*types.Var
+		if pt, ok := entry.(*types.Pointer); ok {
+			if st, ok := pt.Elem().Underlying().(*types.Struct); ok {
+				for i := 0; i < st.NumFields(); i++ {
+					if c16IsAgentID(st.Field(i).Type()) {
+						peerFields = append(peerFields, st.Field(i))
+					}
+				}
+			}
+		}
+		compared := map[*types.Var]bool{}
+		for _, f := range kit.WithClosures(m) {
+			kit.Instrs(f, func(in ssa.Instruction) {
+				var a, b ssa.Value
+				switch x := in.(type) {
+				case *ssa.BinOp:
+					if x.Op != token.EQL && x.Op != token.NEQ {
+						return
+					}
+					a, b = x.X, x.Y
+				case *ssa.Call:
+					if !kit.CalleeOf(x).Is("internal/identity", "AgentID", "Equal") || len(x.Call.Args) != 2 {
+						return
+					}
+					a, b = x.Call.Args[0], x.Call.Args[1]
+				default:
+					return
+				}
+				for _, pair := range [][2]ssa.Value{{a, b}, {b, a}} {
+					pf, base := kit.LoadedField(pair[0])
+					if pf == nil || base == nil || !types.Identical(base.Type(), entry) {
+						continue
+					}
+					if _, isParam := pair[1].(*ssa.Parameter); isParam && c16IsAgentID(pair[1].Type()) {
+						compared[pf] = true
+					}
+				}
+			})
+		}
+		var missing []string
+		for _, pf := range peerFields {
+			if !compared[pf] {
+				missing = append(missing, pf.Name())
+			}
+		}
+		r.Decide(len(missing) == 0, "C17.R3", kit.FuncName(m)+" matches every recorded peer", p.Pos(m.Pos()),
+			fmt.Sprintf("the by-peer removal compares all %d recorded peers of an entry with the disconnected peer", len(peerFields)),
+			"the by-peer removal never compares "+strings.Join(missing, ", ")+" with the disconnected peer: entries in which the peer that went away plays that role stay in both indices forever")
 	}
 	// frame-created tables that record their peer
 	n := 0
@@ -1090,6 +1225,125 @@ func c17R4Handlers(p *kit.Program, r *kit.Report) {
 	}
 	r.Count("handler_registrations_with_failure_paths", n)
 	r.Require(n >= 2, "floor: %d handler registration(s) followed by an error check found (expected exit and forward at least)", n)
+}
+
+// c17R4RelaySide: the relay indices are numbered per peer connection, so the same number can be
+// the upstream id of one entry and the downstream id of another. A frame-driven function that
+// removes relay entries must (i) accept an entry found in an index only after comparing the peer
+// that owns that index's id space (byUpstream ↔ upstream peer, byDownstream ↔ downstream peer)
+// with the sender, and (ii) report "no entry" only after it consulted every index: a miss — or
+// a hit that belongs to somebody else — in one index says nothing about the other.
+func c17R4RelaySide(p *kit.Program, r *kit.Report, cx *c16Ctx, rt *types.Named) {
+	idx, _ := c17RelayIndexes(rt)
+	var evs []*c16Eval
+	for _, ev := range c16ResolveTablesQuiet(p) {
+		for _, f := range idx {
+			if ev.Field == f {
+				evs = append(evs, ev)
+			}
+		}
+	}
+	if !r.Require(len(evs) == len(idx), "anchor-unresolved: relay indices are not all in the classified table list (%d of %d)", len(evs), len(idx)) {
+		return
+	}
+	removes := func(fn *ssa.Function) bool {
+		// fn deletes from a relay index itself or through relayTable methods it calls
+		for _, f := range kit.WithClosures(fn) {
+			if _, del, _ := c17Effects(p, f, idx); len(del) > 0 {
+				return true
+			}
+			for _, c := range kit.Calls(f) {
+				if cal := kit.CalleeOf(c); cal.Static != nil {
+					if _, del, _ := c17Effects(p, cal.Static, idx); len(del) > 0 {
+						return true
+					}
+				}
+			}
+		}
+		return false
+	}
+	states := []*c16R2State{}
+	for _, ev := range evs {
+		cx.c16EvalR1(ev)
+		if ev.R1OK {
+			r.OK("C17.R4", ev.Name+" removal matches the sender's side", ev.Pos, "not applicable: keys of this index are collision-free (C16.R1)")
+			continue
+		}
+		cx.c16EvalR2(ev)
+		var bad []string
+		for _, fn := range ev.R2BadFns {
+			if removes(fn) {
+				bad = append(bad, kit.FuncName(fn))
+			}
+		}
+		side := "the recorded peer"
+		if ev.SidePeer != nil {
+			side = ev.SidePeer.Name()
+		}
+		r.Decide(len(bad) == 0, "C17.R4", ev.Name+" removal matches the sender's side", ev.Pos,
+			"every frame-driven removal accepts an entry found in this index only after comparing its "+side+" with the sender",
+			fmt.Sprintf("%s removes (or declines to remove) an entry found in %s without comparing the entry's %s with the sender: a close for stream n of one connection pops the entry another connection registered under n, or nothing, and the closed tunnel's entry stays in both indices", strings.Join(bad, ", "), ev.Field.Name(), side))
+		s := &c16R2State{cx: cx, ev: ev, entries: map[*ssa.Function]c16Origins{}, accessor: map[*ssa.Function]map[int]bool{},
+			operator: map[*ssa.Function]map[int]bool{}, directFns: map[*ssa.Function]bool{}}
+		s.sidePeer = ev.SidePeer
+		s.collect()
+		states = append(states, s)
+	}
+	if len(states) < 2 {
+		return
+	}
+	// (ii) functions that look several indices up under one key and know the sender
+	look := map[*ssa.Function][]kit.FieldAccess{}
+	for _, f := range idx {
+		for _, acc := range p.FieldAccessesOfKind(f, kit.MapLookup) {
+			look[acc.Fn] = append(look[acc.Fn], acc)
+		}
+	}
+	var fns []*ssa.Function
+	for fn, accs := range look {
+		fields := map[*types.Var]bool{}
+		for _, a := range accs {
+			fields[a.Field] = true
+		}
+		hasPeer := false
+		for _, pa := range c16ExplicitParams(fn) {
+			if c16IsAgentID(pa.Type()) {
+				hasPeer = true
+			}
+		}
+		if len(fields) >= 2 && hasPeer && len(fn.Blocks) > 0 {
+			fns = append(fns, fn)
+		}
+	}
+	sort.Slice(fns, func(i, j int) bool { return kit.FuncName(fns[i]) < kit.FuncName(fns[j]) })
+	r.Count("relay_direction_disambiguating_functions", len(fns))
+	for _, fn := range fns {
+		blocked := map[kit.Edge]bool{}
+		for _, s := range states {
+			for _, ve := range s.validEdges(fn) {
+				blocked[ve.edge] = true
+			}
+		}
+		bad := ""
+		for _, acc := range look[fn] {
+			lb := acc.Instr.Block()
+			if lb == fn.Blocks[0] {
+				continue
+			}
+			reach := kit.Reach(fn.Blocks[0], blocked, map[*ssa.BasicBlock]bool{lb: true})
+			for _, ret := range kit.Returns(fn) {
+				if ret.Block() == fn.Recover || ret.Block() == lb {
+					continue
+				}
+				if reach[ret.Block()] {
+					bad = fmt.Sprintf("the return at %s is reached without a sender-validated hit and without looking into %s", p.Pos(ret.Pos()), acc.Field.Name())
+				}
+			}
+		}
+		r.Decide(bad == "", "C17.R4", kit.FuncName(fn)+" consults every index", p.Pos(fn.Pos()),
+			"every return without a sender-validated hit comes after all index lookups",
+			bad+": when the number is also registered in the other index for a different connection, the sender's own entry is never found and stays behind")
+	}
 }
 
 // c17FrameDispatch finds the function that compares a frame type with >= 20 protocol.Frame*
